@@ -56,6 +56,11 @@ Relax(s) ==
   CASE s.k \in {"slice", "arr"} -> [s EXCEPT !.sort = FALSE, !.e = Relax(s.e)]
     [] s.k = "struct" -> [s EXCEPT !.f = M([i \in 1..Len(s.f) |-> Relax(s.f[i])])]
     [] s.k \in {"opt", "eptr"} -> [s EXCEPT !.t = Relax(s.t)]
+    \* a map is laid out like a slice of (key, value) structs without type code: the relaxed schema writes its entries as given
+    [] s.k = "map" -> [k |-> "slice", e |-> [k |-> "struct", code |-> [w |-> 0, c |-> 0], f |-> <<Relax(s.key), Relax(s.val)>>],
+                       lp |-> s.lp, n |-> 0, min |-> s.min, max |-> s.max, sort |-> FALSE, vlex |-> FALSE, nodup |-> FALSE,
+                       one |-> 0, must |-> <<>>, mw |-> 1]
+    [] s.k = "iface" -> [s EXCEPT !.alts = M([j \in 1..Len(s.alts) |-> [s.alts[j] EXCEPT !.t = Relax(s.alts[j].t)]])]
     [] OTHER -> s
 RowB(b, r0, r1, e0, e1) == [s |-> Cat[sid].name, b |-> b, r0 |-> r0, r1 |-> r1, e0 |-> e0, e1 |-> e1,
                             oos |-> r0.ok /\ Oos(S, r0.v)]
